@@ -83,8 +83,8 @@ def check_exact_refusal(ctx, A, config, RULE_NAME):
                         return all(ok_need(x, depth + 1) for _, x in nd[2])
                     return nd[0] == 'app' and nd[1] == 'round_up' and nd[2] == app('size', L) and nd[3] in (arena.MIN, app('align', L))
                 if ok_need(need):
-                    base = capt[2] if capt[0] == 'app' and capt[1] == 'wsub' else None
-                    low = capt[3] if capt[0] == 'app' and capt[1] == 'wsub' else None
+                    base = capt[2] if capt[0] == 'app' and capt[1] in ('wsub', 'sub') and len(capt) == 4 else None
+                    low = capt[3] if capt[0] == 'app' and capt[1] in ('wsub', 'sub') and len(capt) == 4 else None
                     if low == data and (base == fin or (base is not None and base[0] == 'app' and base[1] == 'round_down' and base[2] == fin)):
                         good = True
                 if need == data and capt[0] == 'app' and capt[1] == 'round_down' and capt[2] == fin:
